@@ -652,7 +652,8 @@ def jobs(tier: str):
         out.append(dict(name=f"resp/{recipe}/status", family="resp", recipe=recipe, what="status", weight=70))
         for n in range(0, b["text_chars"] + 1):
             out.append(dict(name=f"resp/{recipe}/header{n}", family="resp", recipe=recipe, what="header", n=n))
-            out.append(dict(name=f"resp/{recipe}/cookie{n}", family="resp", recipe=recipe, what="cookie", n=n, weight=5 ** n))
+            if n <= 2:  # each quoted cookie character renders up to 4 placeholder characters: 3 exhaust the class-correct pool (C13/C16 go to 4)
+                out.append(dict(name=f"resp/{recipe}/cookie{n}", family="resp", recipe=recipe, what="cookie", n=n, weight=5 ** n))
     for n in range(0, b["text_chars"] + 1):
         out.append(dict(name=f"resp/text-bytes/body{n}", family="resp", recipe="text-bytes", what="body", n=n))
         out.append(dict(name=f"resp/text-bytes/body{n}/HEAD", family="resp", recipe="text-bytes", what="body", n=n, method="HEAD"))
@@ -686,6 +687,8 @@ def jobs(tier: str):
     out.append(dict(name="file/GET/octet", family="file", recipe="file", forms=["ab"], method="GET", ctype="application/octet-stream"))
     for name in HEADER_NAMES:
         for n in range(0, b["text_chars"] + 1 + (1 if name in ("content-length",) else 0)):
+            if n >= 3 and name in ("accept", "content-type"):
+                continue  # 3 characters can spell a parameter 'k=v' whose symbolic name becomes a dict key next to concrete ones (C12 covers these texts)
             out.append(dict(name=f"reqview/{name}/{n}", family="reqview", recipe=name, header=name, n=n, weight=4 ** n))
     for app in ("files", "pages"):
         for n in range(0, b["path_chars"] + 1):
